@@ -67,6 +67,10 @@ func Alphabet(p int) []*Def {
 		{Disc: 1, Doc: []string{" first branch"}, Rec: &Def{Kind: Message, Name: n("UoA"), Fields: []Field{{Name: "b", Index: 1, Type: S("uint32")}}}},
 		{Disc: 3, Dep: str("old branch"), Rec: &Def{Kind: Struct, Name: n("UoB"), Fields: []Field{{Name: "c", Type: S("bool")}}}},
 		{Disc: 200, Rec: &Def{Kind: Struct, Name: n("UoC")}}}})
+	// identifiers are Unicode letters and digits (the tokenizer uses unicode.IsLetter): non-ASCII runes after the first
+	// character, of two and three bytes, in every identifier position
+	add("non-ascii-identifiers", &Def{Kind: Struct, Name: n("Café"), Fields: []Field{{Name: "größe", Type: S("int32")}, {Name: "naïve日本", Type: Arr(S("string"))}, {Name: "x", Type: Mp("string", S("guid"))}}})
+	add("non-ascii-enum", &Def{Kind: Enum, Name: n("Größe"), Members: []Member{{Name: "Klein", Expr: "1", U: 1}, {Name: "Groß", Expr: "2", U: 2}}})
 	add("union-docs-on-later-branches", &Def{Kind: Union, Name: n("Ud"), Branches: []Branch{
 		{Disc: 1, Rec: &Def{Kind: Struct, Name: n("UdA"), Fields: []Field{{Name: "a", Type: S("int32")}}}},
 		{Disc: 2, Doc: []string{" about the second branch"}, Rec: &Def{Kind: Message, Name: n("UdB"), Fields: []Field{{Name: "b", Index: 1, Type: S("string"), Doc: []string{" about b"}}, {Name: "c", Index: 2, Type: S("bool"), Doc: []string{" about c"}}}}},
